@@ -62,3 +62,17 @@ func markSentinel(err error, at int64) {
 		s.at = at
 	}
 }
+
+var slots = make(chan struct{}, 2)
+
+// limited takes a slot of a package-level channel when one is free (R17.6): what it does next depends on what
+// other goroutines are doing at that moment.
+func limited() bool {
+	select {
+	case slots <- struct{}{}:
+		<-slots
+		return true
+	default:
+		return false
+	}
+}
